@@ -145,6 +145,8 @@ def generate(ctx):
                         continue
                     if job == "pf":
                         yield {"c": ci, "job": job, "build": "san", "fault": f}
+                        if ent["id"].startswith("parser-inc/"):
+                            continue        # the stub headers (85 % of the corpus bytes) get the sanitized build only
                     yield {"c": ci, "job": job, "build": "rel", "fault": f}
     else:
         # seeded sample of the space the thorough tier enumerates
@@ -162,13 +164,14 @@ def generate(ctx):
                 job = rng.choice(ent["jobs"])
                 off = rng.below(ent["size"])
                 r3 = rng.below(5)
+                bl = "san" if ent["id"].startswith("parser-inc/") else "rel"
                 if r3 < 2:
                     yield {"c": ci, "job": job, "build": "rel", "fault": {"kind": "T", "off": off}}
                 elif r3 == 2:
-                    yield {"c": ci, "job": job, "build": "rel", "fault": {"kind": "D", "off": off}}
+                    yield {"c": ci, "job": job, "build": bl, "fault": {"kind": "D", "off": off}}
                 else:
                     b = rng.choice([x for x in ALPHABET if x != data[off]])
-                    yield {"c": ci, "job": job, "build": "rel", "fault": {"kind": "R", "off": off, "byte": b}}
+                    yield {"c": ci, "job": job, "build": bl, "fault": {"kind": "R", "off": off, "byte": b}}
 
 
 def damage(data, f):
